@@ -935,6 +935,7 @@ package url
 //@   ensures wf(u)   [C02,C04,C19]
 //@   ensures old(shapeP(u)) ==> shapeP(u)   [C04,C05 shape-preserved-by-setters]
 //@   ensures keptArrays(u)
+//@   ensures old(collapsedOK(u)) ==> collapsedOK(u)   [C16 collapse-leaves-no-empty-non-final-segment]
 //@   ensures u.searchParams == old(u.searchParams)   [C12 other-setters-keep-the-list]
 //@   ensures special(u, u.scheme) == old(special(u, u.scheme))   [C05,C07,C09 scheme-setter-keeps-specialness]
 //@   ensures u.scheme != old(u.scheme) ==> (u.inputUrl == old(cleaned(specHasSuffix(scheme, ":") ? scheme : scheme + ":")) && hasSch(u)
@@ -966,6 +967,7 @@ package url
 //@   ensures wf(u)   [C02,C04,C19]
 //@   ensures old(shapeP(u)) ==> shapeP(u)   [C04,C05 shape-preserved-by-setters]
 //@   ensures keptArrays(u)
+//@   ensures old(collapsedOK(u)) ==> collapsedOK(u)   [C16 collapse-leaves-no-empty-non-final-segment]
 //@   ensures u.searchParams == old(u.searchParams)   [C12 other-setters-keep-the-list]
 //@   ensures old(u.path.opaque) ==> sameUrl(u)   [C05]
 //@ func (*Url).SetHostname
@@ -975,6 +977,7 @@ package url
 //@   ensures wf(u)   [C02,C04,C19]
 //@   ensures old(shapeP(u)) ==> shapeP(u)   [C04,C05 shape-preserved-by-setters]
 //@   ensures keptArrays(u)
+//@   ensures old(collapsedOK(u)) ==> collapsedOK(u)   [C16 collapse-leaves-no-empty-non-final-segment]
 //@   ensures u.searchParams == old(u.searchParams)   [C12 other-setters-keep-the-list]
 //@   ensures old(u.path.opaque) ==> sameUrl(u)   [C05]
 //@ func (*Url).SetPort
@@ -995,6 +998,7 @@ package url
 //@   ensures wf(u)   [C02,C04,C19]
 //@   ensures old(shapeP(u)) ==> shapeP(u)   [C04,C05 shape-preserved-by-setters]
 //@   ensures keptArrays(u)
+//@   ensures old(collapsedOK(u)) ==> collapsedOK(u)   [C16 collapse-leaves-no-empty-non-final-segment]
 //@   ensures u.searchParams == old(u.searchParams)   [C12 other-setters-keep-the-list]
 //@   ensures old(u.path.opaque) ==> sameUrl(u)   [C05]
 //@ func (*Url).SetHash
@@ -1051,6 +1055,7 @@ package url
 //@   requires wf(u)
 //@   ensures result1 == nil ==> (result0 != nil && fresh(result0) && wf(result0) && allFresh(result0))   [C02,C13,C14]
 //@   ensures result1 == nil ==> result0.parser == u.parser   [C06,C16 result-carries-the-base-parser]
+//@   ensures (result1 == nil && collapsedOK(u) && shapeP(u)) ==> collapsedOK(result0)   [C16 collapse-leaves-no-empty-non-final-segment]
 //@   ensures (result1 == nil && shapeP(u)) ==> shapeP(result0)   [C04 parse-establishes-shape]
 //@   ensures result1 == nil ==> result0.inputUrl == old(cleanedP(ref))   [C01,C06 input-cleaning]
 //@   ensures (result1 == nil && hasSch(result0)) ==> result0.scheme == specLowerRunes(inC(result0), schEnd(result0))   [C01 scheme-value]
@@ -1071,6 +1076,7 @@ package url
 //@   requires okOpts(p)
 //@   ensures result1 == nil ==> (result0 != nil && fresh(result0) && wf(result0) && allFresh(result0) && result0.parser == p)   [C02,C13,C14]
 //@   ensures result1 == nil ==> shapeP(result0)   [C04 parse-establishes-shape]
+//@   ensures result1 == nil ==> collapsedOK(result0)   [C16 collapse-leaves-no-empty-non-final-segment]
 //@   ensures result1 == nil ==> result0.inputUrl == old(cleanedP(rawUrl))   [C01 input-cleaning]
 //@   ensures result1 == nil ==> (hasSch(result0) && result0.scheme == specLowerRunes(inC(result0), schEnd(result0)))   [C01 scheme-value]
 //@   ensures (result1 == nil && firstHash(result0) == inN(result0)) ==> result0.fragment == nil   [C01 no-hash-no-fragment]
@@ -1087,6 +1093,7 @@ package url
 //@   ensures result1 == nil ==> (result0 != nil && fresh(result0) && wf(result0) && allFresh(result0))   [C02,C13,C14]
 //@   ensures result1 == nil ==> result0.parser == p   [C06,C16 base-and-reference-parsed-by-the-same-parser]
 //@   ensures result1 == nil ==> shapeP(result0)   [C04 parse-establishes-shape]
+//@   ensures result1 == nil ==> collapsedOK(result0)   [C16 collapse-leaves-no-empty-non-final-segment]
 //@ func (*parser).NewUrl
 //@   requires p != nil
 //@   ensures result != nil && fresh(result) && result.parser == p && result.path != nil
